@@ -126,6 +126,7 @@ pub mod k {
     pub const NEW_MAX_BIDI: i128 = 93; // ... with these values (-1 = leave)
     pub const NEW_MAX_UNI: i128 = 94;
     pub const RESET_FORGE: i128 = 95; // 1: whenever the client puts a long-header datagram on the wire, the attacker sends it a short-header datagram addressed to that datagram's source CID and ending in the token of a stateless reset it has OBSERVED earlier (a token that belongs to some other, older connection ID)
+    pub const CLOSE_REASON_LEN: i128 = 96; // length of the reason phrase of the application close (default 3)
     pub const DGRAM_START: i128 = 81; // us: application datagrams are not sent before this instant
     pub const RECONNECT: i128 = 70; // open this many further client connections, one per drained connection (slot reuse)
 }
@@ -1618,7 +1619,9 @@ impl World {
             let done = done && now_us >= app.hold_close_until;
             if i_close && ((close_at == 0 && done && (app.is_client || !app.inp.is_empty() || app.stream_bytes == 0)) || time_close) {
                 let code = if app.is_client { 42 } else { 43 };
-                conn.close(now_i, VarInt::from_u32(code), Bytes::from_static(b"bye"));
+                let rl = self.p.get(k::CLOSE_REASON_LEN, 3).max(0) as usize;
+                let reason = if rl == 3 { Bytes::from_static(b"bye") } else { Bytes::from(vec![b'r'; rl]) };
+                conn.close(now_i, VarInt::from_u32(code), reason);
                 app.closed_local = true;
                 tr.push(vec![3, t, e, c, 11, code as i128, 0, 0]);
                 did = true;
@@ -2288,6 +2291,14 @@ fn hostile_frames(kind: i128, side: usize, max_uni: u64, rng: &mut Rng) -> (u8, 
             put_var(&mut b, 1);
             put_var(&mut b, 0);
             put_var(&mut b, 0);
+        }
+        29 => {
+            // a CRYPTO frame that STARTS inside the receiver's crypto buffer limit (16 KiB by default)
+            // and ends beyond it
+            b.push(0x06);
+            put_var(&mut b, 16000);
+            put_var(&mut b, 600);
+            b.extend(std::iter::repeat(0x11).take(600));
         }
         _ => b.push(0x01),
     }
